@@ -93,7 +93,7 @@ func TestC16_hooks(t *testing.T) {
 	rapid.Check(t, func(rt *rapid.T) {
 		r.Guard(func() {
 			r.Eval()
-			cs := &c16HCase{World: rapid.SampledFrom([]string{"vault", "vault", "english", "liquidity", "lend"}).Draw(rt, "world")}
+			cs := &c16HCase{World: rapid.SampledFrom([]string{"vault", "vault", "english", "liquidity", "lend", "gauges"}).Draw(rt, "world")}
 			cs.Dt = rapid.SampledFrom([]int64{5, 6, 600, 7201, 86400, 7 * 86400}).Draw(rt, "hookdt")
 			cs.At150 = rapid.IntRange(0, 3).Draw(rt, "align") == 0
 			crash := func(n int) {
@@ -162,6 +162,41 @@ func TestC16_hooks(t *testing.T) {
 					m.apply(i, op)
 				}
 				c16HooksRun(rt, r, cs, m.c, nil)
+			case "gauges":
+				// the incentive hook's workload: the liquidity world driven as for C19 (gauges, farmers, epochs, oracle
+				// prices, several pools on a pair, swap fees collected by trades), then the hooks of a block one epoch later
+				lc := &lCase{Cfg: genLCfg(rt)}
+				for i := range lc.Cfg.Apps {
+					lc.Cfg.Apps[i].DistrDenom = rapid.SampledFrom([]string{"", "uaaa", "ubbb", "uccc"}).Draw(rt, fmt.Sprintf("distrdenom%d", i))
+				}
+				cs.L = lc
+				m := newLMachine(rt, r, "C19", lc)
+				n := rapid.IntRange(15, 50).Draw(rt, "nops")
+				for i := 0; i < n; i++ {
+					op := m.genOp(rt, i)
+					lc.Ops = append(lc.Ops, op)
+					m.apply(i, op)
+				}
+				if rapid.IntRange(0, 3).Draw(rt, "sharedfees") > 0 {
+					// make the swap-fee distribution among several pools of one pair do real work: more pools on a pair,
+					// oracle prices for both of its tokens, and fee-distribution tokens in its collector
+					j := rapid.IntRange(0, len(lc.Cfg.Pairs)-1).Draw(rt, "sfpair")
+					var tail []lOp
+					for k := 0; k < rapid.IntRange(1, 3).Draw(rt, "sfpools"); k++ {
+						np := genLPool(rt, j, rapid.Bool().Draw(rt, fmt.Sprintf("sfranged%d", k)), fmt.Sprintf("sfnp%d", k))
+						tail = append(tail, lOp{K: "newpool", New: &np, Actor: rapid.IntRange(0, lNumLP-1).Draw(rt, fmt.Sprintf("sflp%d", k))})
+					}
+					tail = append(tail, lOp{K: "oprice", Pair: lc.Cfg.Pairs[j].Base, Extra: rapid.SampledFrom([]int64{1000000, 2500000}).Draw(rt, "sfpb"), Buy: true},
+						lOp{K: "oprice", Pair: lc.Cfg.Pairs[j].Quote, Extra: rapid.SampledFrom([]int64{1000000, 400000}).Draw(rt, "sfpq"), Buy: true},
+						lOp{K: "feegift", Pair: j, Actor: rapid.IntRange(0, lNumLP-1).Draw(rt, "sfgiver"), A: rapid.SampledFrom([]string{"1000000", "999999937"}).Draw(rt, "sfamt")})
+					for _, op := range tail {
+						lc.Ops = append(lc.Ops, op)
+						m.apply(len(lc.Ops)-1, op)
+					}
+				}
+				cs.Dt = rapid.SampledFrom([]int64{86400, 86401, 7 * 86400}).Draw(rt, "epochdt")
+				m.c16GaugeClasses(r)
+				c16HooksRun(rt, r, cs, m.c, nil)
 			default:
 				lc := &ldCase{Cfg: genLdCfg(rt)}
 				lc.Cfg.Liq = genLdLiq(rt)
@@ -206,6 +241,12 @@ func init() {
 				m.apply(i, op)
 			}
 			c16HooksRun(t, r, &cs, m.c, nil)
+		case "gauges":
+			m := newLMachine(t, r, "C19", cs.L)
+			for i, op := range cs.L.Ops {
+				m.apply(i, op)
+			}
+			c16HooksRun(t, r, &cs, m.c, nil)
 		default:
 			m := newLdMachine(t, r, "C16", cs.Ld)
 			for i, op := range cs.Ld.Ops {
@@ -222,6 +263,39 @@ func (m *vMachine) c16CrashPrep(assets []int) func() {
 		for _, ai := range assets {
 			tw, _ := m.c.App.MarketKeeper.GetTwa(m.c.Ctx, m.cs.Cfg.Assets[ai].ID)
 			m.c.SetPrice(m.cs.Cfg.Assets[ai].ID, tw.Twa/20+1, true)
+		}
+	}
+}
+
+// c16GaugeClasses reports whether the state handed to the hooks makes the swap-fee distribution among several pools
+// of one pair do real work (what an order-dependent distribution would need to show).
+func (m *lMachine) c16GaugeClasses(r *rec.Rec) {
+	c := m.c
+	for _, a := range m.cs.Cfg.Apps {
+		params, err := m.k.GetGenericParams(c.Ctx, a.ID)
+		if err != nil {
+			continue
+		}
+		for _, pair := range m.k.GetAllPairs(c.Ctx, a.ID) {
+			n := 0
+			for _, p := range m.k.GetPoolsByPair(c.Ctx, a.ID, pair.Id) {
+				if !p.Disabled {
+					n++
+				}
+			}
+			if n < 2 {
+				continue
+			}
+			r.Class("gauges:pair-with-several-pools")
+			_, qf, _ := m.k.OraclePrice(c.Ctx, pair.QuoteCoinDenom)
+			_, bf, _ := m.k.OraclePrice(c.Ctx, pair.BaseCoinDenom)
+			if !qf || !bf {
+				continue
+			}
+			r.Class("gauges:pair-with-several-pools-and-oracle-prices")
+			if c.Bal(pair.GetSwapFeeCollectorAddress(), params.SwapFeeDistrDenom).IsPositive() {
+				r.Class("gauges:pair-with-several-pools-prices-and-collected-fees")
+			}
 		}
 	}
 }
